@@ -32,6 +32,8 @@ def leak_signature(cmd, step, changed, nlines):
     mode_lines = (op == "move_abs" and nlines == 2 and all(("G90" in r or "G91" in r) for r in step["raw"]))
     if exc == "ValueErr" and (nlines == 0 or mode_lines):
         tail = "+G90/G91-emitted" if mode_lines else ""
+        if mode_lines:
+            ch = ch - {"halt"}        # writing any line (here the G90/G91 pair) resets a pending halt mode: part of the same site
         if op in ("move", "move_abs"):
             if ch and ch <= {"feed", "power"}:
                 return "move|ValueErr|F/S-words-committed-before-rejection" + tail
